@@ -239,7 +239,15 @@ def random_program_gen(rng, end_t, maxev, p_fault, prios=(1, 5, 10), bad=("nan_a
             room = ctl.next_rank + sum(1 for o in ops if o["k"] in ("now", "rel", "abs")) < maxev
             r = rng.random()
             if r < p_cancel and ctl.next_rank >= 1:
-                ops.append({"k": "cancel", "a": rng.randrange(1, ctl.next_rank + 1), "p": 0})
+                # mostly cancel events that are still pending (interior removals from a deep heap), sometimes any rank (executed ones too)
+                pend = []
+                if rng.random() < 0.8:
+                    try:
+                        el = ctl.sim.eventlist()
+                        pend = [rk for rk, evn in ctl.events.items() if el.contains(evn)]
+                    except Exception:
+                        pend = []
+                ops.append({"k": "cancel", "a": rng.choice(pend) if pend else rng.randrange(1, ctl.next_rank + 1), "p": 0})
             elif r < p_cancel + 0.08:
                 ops.append({"k": rng.choice(bad), "a": 0, "p": 5})
             elif not room:
@@ -258,10 +266,15 @@ def random_run(ctx: Ctx, rng, conc, end_t, warm_t, strategy, *, cmds, p_fault=0.
                model_factory=None, dispose=True, wide=False, p_strat=0.0, probe_starting=False, p_endrep=0.0, p_cancel=None):
     gen = random_program_gen(rng, end_t, maxev, p_fault, p_cancel=p_cancel if p_cancel is not None else (0.45 if wide else 0.12), p_strat=p_strat, p_endrep=p_endrep)
     init_ops = []
-    for _ in range(rng.choice([8, 10, 12]) if wide else rng.choice([1, 2, 3])):
+    for _ in range(rng.choice([10, 13, 16]) if wide else rng.choice([1, 2, 3])):
         k = rng.choice(["rel", "rel", "abs", "now"])
         a = 0 if k == "now" else rng.randrange(0, end_t + 2)
         init_ops.append({"k": k, "a": a, "p": rng.choice([1, 5, 10])})
+    if wide:
+        # interior removals from a deep heap right away: some of the initial events are cancelled again while ten or more are pending
+        nsched = len(init_ops)
+        for _ in range(rng.choice([1, 2, 3])):
+            init_ops.append({"k": "cancel", "a": rng.randrange(1, nsched + 1), "p": 0})
     ctl = dd.SimCtl(conc, end_t, warm_t, strategy, init_ops=init_ops, prog_gen=gen, model_factory=model_factory)
     ctl.probe_starting = probe_starting
     try:
